@@ -16,7 +16,7 @@
     auto-move ([junk_class]). *)
 From Coq Require Import String Ascii List Bool Arith ZArith.
 From Raven Require Import Base.GoStr Model.Flags Spec.FlagSet Proof.Flags Model.FlagStore Spec.FlagHistory
-     Spec.FlagOracle Proof.FlagStore Proof.FlagStoreSeq Proof.FlagQueries Proof.FlagRefute.
+     Spec.FlagOracle Proof.FlagStore Proof.FlagStoreSeq Proof.FlagQueries Proof.FlagAtoms Proof.FlagRefute.
 Import ListNotations.
 Local Open Scope Z_scope.
 
@@ -41,7 +41,7 @@ Print Assumptions c10_apply_exact.
     every other row is literally unchanged; nothing else of the store changes. *)
 Theorem c10_uid_store_touches_only_addressed :
   forall e s silent mb q item new it,
-  uniq_keys (links s) -> item_of item = Some it ->
+  uniq_keys (links s) -> item_of item = Some it -> flags_valid new = true ->
   classify e s (OUidStore false silent mb q item new) = None ->
   let s' := step e s (OUidStore false silent mb q item new) in
   Forall2 (row_ok mb (expand_uid (links s) mb q) it new) (links s) (links s')
@@ -52,7 +52,7 @@ Print Assumptions c10_uid_store_touches_only_addressed.
 (** the same for STORE / STORE .SILENT by sequence numbers *)
 Theorem c10_store_touches_only_addressed :
   forall e s silent mb q item new it,
-  uniq_keys (links s) -> item_of item = Some it ->
+  uniq_keys (links s) -> item_of item = Some it -> flags_valid new = true ->
   classify e s (OStore false silent mb q item new) = None ->
   let s' := step e s (OStore false silent mb q item new) in
   Forall2 (row_ok mb (seq_targets (links s) mb q) it new) (links s) (links s')
@@ -128,6 +128,30 @@ Theorem c10_examine_never_modifies : forall e s o, read_only_op o -> step e s o 
 Proof. exact examine_changes_nothing. Qed.
 Print Assumptions c10_examine_never_modifies.
 
+(** (e) flags are RFC 3501 flags (an atom, optionally preceded by one
+    backslash): a STORE / UID STORE / APPEND that names anything else changes
+    nothing; every operation keeps "all stored flags are RFC 3501 flags", so
+    after any history from such a store FETCH FLAGS prints atoms only; a valid
+    flag is not empty and contains none of ( ) SP { DQUOTE or a control octet. *)
+Theorem c10_invalid_flag_refused : forall e s o,
+  match o with
+  | OStore _ _ _ _ _ new | OUidStore _ _ _ _ _ new => flags_valid new = false
+  | OAppend _ fl => flags_valid fl = false
+  | _ => False
+  end -> step e s o = s.
+Proof. exact invalid_flag_refused. Qed.
+Print Assumptions c10_invalid_flag_refused.
+
+Theorem c10_stored_flags_are_atoms : forall e h s,
+  atoms_ok (links s) -> atoms_ok (links (run e s h)).
+Proof. exact atoms_run. Qed.
+Print Assumptions c10_stored_flags_are_atoms.
+
+Theorem c10_valid_flag_is_printable : forall f, valid_flag f = true ->
+  f <> [] /\ forallb (fun c => negb (list_breaker c)) f = true.
+Proof. exact valid_flag_chars. Qed.
+Print Assumptions c10_valid_flag_is_printable.
+
 (** ---- where raven still deviates from the statement: the auto-move ---- *)
 Theorem c10_refuted_junk_move :
   refutes JunkMove [OAppend 1 [NONJUNK]] (OUidStore false false 1 (one 1) IT_ADD [JUNK; SEEN]) 1
@@ -191,3 +215,9 @@ Example c10_fixed_flag_case :
   /\ unseen_count [mkLink 1 1 1 [S_ "\seen"]; mkLink 2 1 2 [S_ "\Seenish"]] 1 = 1
   /\ copy_flags [S_ "\recent"] = [S_ "\recent"].
 Proof. exact fixed_flag_case. Qed.
+
+Example c10_fixed_flag_atom :
+  let h := [OAppend 1 [S_ "kw"]; OStore false false 1 (one 1) IT_ADD [S_ "x)y"; SEEN];
+            OUidStore false false 1 (one 1) IT_FLAGS [S_ "a\b"]; OAppend 1 [S_ "a""b"]; OAppend 1 [S_ "\*"]] in
+  view (links (run env0 st0 h)) 1 = [(1, [S_ "kw"])] /\ next_of (nexts (run env0 st0 h)) 1 = 2.
+Proof. exact fixed_flag_atom. Qed.
